@@ -80,6 +80,95 @@ def _cases(tier, rng):
             yield {'kind': 'mux', 'term': term, 'items': items}
 
 
+def _sources_cases(tier, rng):
+    # several hot sources sharing one store (with_memory_store(sources=[...])): the outputs are subscribed one after the other,
+    # items may be pushed in between (a hot source's items before its subscription is complete are not consumed)
+    for _ in range({'quick': 40, 'thorough': 400, 'search': 20}[tier]):
+        ns = rng.choice([2, 2, 3])
+        pipes = [rng.choice([[['scan', ['add'], 0, False, None]], [['count', False]], [['map', ['add', 1]]], [['batch', 2]],
+                             [['count', True]], [['to_list']], [['lag', 1]]]) for _ in range(ns)]
+        sched = []
+        order = list(range(ns))
+        rng.shuffle(order)
+        subscribed = []
+        for k in order:
+            sched.append(['sub', k])
+            subscribed.append(k)
+            for _j in range(rng.choice([0, 0, 1, 2])):
+                sched.append(['push', rng.choice(subscribed) if rng.random() < 0.8 else rng.randrange(ns), rng.randrange(9)])
+        live = list(range(ns))
+        for _j in range(rng.choice([2, 4, 7])):
+            sched.append(['push', rng.choice(live), rng.randrange(9)])
+        rng.shuffle(live)
+        for k in live:
+            sched.append(['done', k])
+        yield {'kind': 'sources', 'term': [], 'items': [], 'pipes': pipes, 'sched': sched, 'no_model': True}
+
+
+def sources_violation(case, r):
+    if 'harness_exc' in r:
+        return 'real code raised: ' + r['harness_exc']
+    if r.get('raised'):
+        return None
+    sched, pipes = case['sched'], case['pipes']
+    nsub = 0
+    ready_at = None
+    for j, st in enumerate(sched):
+        if st[0] == 'sub':
+            nsub += 1
+            if nsub == len(pipes):
+                ready_at = j
+    # the items source k delivers: those pushed once every output is subscribed (the sources are subscribed then)
+    for j, (st, out) in enumerate(zip(sched, r['chunks'])):
+        if st[0] == 'sub' and out:
+            return ('sources %s, schedule %s: while output %d is being subscribed (step %d, no item is being processed) %s is emitted'
+                    % (pipes, sched, st[1], j, str(out)[:200]))
+        if st[0] != 'sub' and any(o['o'] != st[1] for o in out):
+            return ('sources %s, schedule %s: step %d %s makes another output emit: %s' % (pipes, sched, j, st, str(out)[:200]))
+    for k, term in enumerate(pipes):
+        steps = [j for j, st in enumerate(sched) if st[0] in ('push', 'done') and st[1] == k and j > ready_at]
+        xs = [dec(sched[j][2]) for j in steps if sched[j][0] == 'push']
+        try:
+            ch, fin = pyref.ref_pipe(term, xs)
+        except pyref.NotCovered:
+            continue
+        want = [[enc(x) for x in c] for c in ch] + [[enc(x) for x in fin]]
+        got = [[o.get('i') for o in r['chunks'][j]] for j in steps]
+        if muxprop.strict_ne(got, want):
+            return ('sources %s, schedule %s: output %d emits %s at its steps %s, the list semantics of its items %s emit %s'
+                    % (pipes, sched, k, str(got)[:200], steps, xs, str(want)[:200]))
+    return None
+
+
+def real(case):      # noqa: F811
+    if case['kind'] == 'sources':
+        import muxreal
+        return muxprop.quiet(muxreal.run_sources, case['pipes'], case['sched'])
+    return muxprop.real(case)
+
+
+def model_cmds(case):      # noqa: F811
+    return [] if case.get('no_model') else muxprop.model_cmds(case)
+
+
+def model_result(case, ans):      # noqa: F811
+    return {} if case.get('no_model') else muxprop.model_result(case, ans)
+
+
+def compare(case, r, m):      # noqa: F811
+    return None if case.get('no_model') else muxprop.compare(case, r, m)
+
+
+def shrink_candidates(case):      # noqa: F811
+    if case['kind'] == 'sources':
+        for j, st in enumerate(case['sched']):
+            if st[0] == 'push':
+                yield dict(case, sched=case['sched'][:j] + case['sched'][j + 1:])
+        return
+    for c in muxprop.shrink_candidates(case):
+        yield c
+
+
 def window_positions(st, xs):
     """for one parent lifetime: list of (window items, index of the item whose chunk must contain the window's
     completion outputs; None = at completion of the key)"""
@@ -204,10 +293,15 @@ def cases(tier, rng):
     """every case of `_cases`, and for a fraction of the mux/plain ones the same case run as the SECOND subscription of
     its pipeline object (after an earlier subscription that completed, failed or was disposed)"""
     pr = rng.sub('resubscription')
-    return muxprop.with_preludes(_cases(tier, rng), pr)
+    for c in _sources_cases(tier, rng.sub('sources')):
+        yield c
+    for c in muxprop.with_preludes(_cases(tier, rng), pr):
+        yield c
 
 
 def oracle(case, r):
+    if case['kind'] == 'sources':
+        return sources_violation(case, r)
     v = muxprop.prelude_violation(case, r)
     if v or case.get('share'):
         return v        # the shared-operator variant wraps the pipeline in a tee_map: judged against separately built operators only
